@@ -1,1 +1,23 @@
+(* Extraction of the executable TRANSFAC reader model and of the property checkers.
+   Only ExtrOcamlBasic: nat, N, Z, positive, byte stay the extracted inductive types.
+   Depends on the model files only, so that it still extracts when a proof breaks. *)
+From Coq Require Import List ZArith NArith Extraction ExtrOcamlBasic.
+From Coq Require Import Init.Byte Strings.Byte.
+From LMBase Require Import Res IEEE.
+From LMTransfac Require Import Bytes Stream Nom Dec2F32 TransfacParse TransfacReader TransfacPrint Checkers.
 
+Definition byte_of_N : N -> option byte := Byte.of_N.
+Definition byte_to_N : byte -> N := Byte.to_N.
+
+(* the reader with the record parser of the (repaired) code *)
+Definition model_run (al : alpha) (s : stream) : list obs :=
+  observe_run (run_reader (parse_record_fixed al) s).
+(* ... and with the parser as it was before the repair of F18 (regression witness) *)
+Definition model_run_streaming (al : alpha) (s : stream) : list obs :=
+  observe_run (run_reader (parse_record_streaming al) s).
+
+Extraction Language OCaml.
+Extraction "transfac_model.ml"
+  byte_of_N byte_to_N model_run model_run_streaming chunk_by
+  check_c14 check_c15 first_diff obs_eqb observe_record
+  print_file expected_record wf_file f32_bits_of_token.
